@@ -25,6 +25,35 @@ from vf import env, evidence, findings
 
 NPROC = int(os.environ.get("VERIF_NPROC", "16"))
 
+# environment dimensions a user's process may differ in; each worker shard gets one combination (recorded in the evidence)
+TIMEZONES = ["UTC", "Europe/Berlin", "America/New_York", "Asia/Tokyo", "Australia/Lord_Howe", "Pacific/Chatham"]
+
+
+def shard_environment(k, seed):
+    """-> dict of environment settings for shard k: time zone, python -O, eager import of every submodule in a seeded order"""
+    j = k + seed
+    return {"TZ": TIMEZONES[j % len(TIMEZONES)], "PYTHONOPTIMIZE": "1" if j % 4 == 3 else "", "VERIF_IMPORT_ALL": "1" if j % 2 == 1 else ""}
+
+
+def import_all_submodules(seed):
+    """import every (non-test) submodule of the package in a seeded random order before any work: exposes import-order
+    dependence and module-level state that only some entry points create"""
+    import pkgutil
+    import random
+
+    import ceos_alos2
+
+    names = [m.name for m in pkgutil.walk_packages(ceos_alos2.__path__, "ceos_alos2.") if ".tests" not in m.name and not m.name.endswith("__main__")]
+    random.Random(f"imports-{seed}").shuffle(names)
+    n = 0
+    for name in names:
+        try:
+            importlib.import_module(name)
+            n += 1
+        except Exception:  # noqa: BLE001  (an optional dependency may be missing; the checks themselves import what they need)
+            pass
+    return n
+
 
 def load(prop):
     return importlib.import_module(f"vf.props.{prop.lower()}")
@@ -55,7 +84,9 @@ def run_shard(prop, tier, seed, k, nshards, out_path):
     from vf import reach
 
     reach.install()
-    mod = load(prop)
+    mod = load(prop)  # first: a property module may have to prepare the interpreter before the package is imported
+    if os.environ.get("VERIF_IMPORT_ALL"):
+        import_all_submodules(f"{seed}-{k}")
     n = mod.n_cases(tier, seed)
     per_case = getattr(mod, "CASE_TIMEOUT", 120)
     results = []
@@ -108,6 +139,11 @@ def execute(prop, tier, seed, only_case=None):
             out_path = os.path.join(scratch, f"shard-{k}.jsonl")
             e = dict(os.environ)
             e["PYTHONHASHSEED"] = str((seed * 7919 + k * 104729 + 1) % 4294967295)
+            for name, value in shard_environment(k, seed).items():
+                if value:
+                    e[name] = value
+                else:
+                    e.pop(name, None)
             e["VERIF_TMP"] = scratch
             e["PYTHONDONTWRITEBYTECODE"] = "1"
             p = subprocess.Popen(
@@ -196,6 +232,9 @@ def verdict(mod, prop, tier, seed, results, wall, n_expected, reach_hits=None):
     }
     if reach_cov is not None:
         coverage["reach"] = reach_cov
+        nsh = max(1, min(NPROC, n_expected, getattr(mod, "MAX_SHARDS", NPROC)))
+        coverage["worker_environments"] = [dict(shard=k, PYTHONHASHSEED=(seed * 7919 + k * 104729 + 1) % 4294967295,
+                                                **{a: b for a, b in shard_environment(k, seed).items() if b}) for k in range(nsh)]
     if hasattr(mod, "finish"):
         extra = mod.finish(results, tier, seed) or {}
         for v in extra.pop("violations", []):
